@@ -199,7 +199,8 @@ def v2_box(R, prog):
                                              'the slot `ref` is %s' % ('accessed directly (torn/stale shared_ptr copy under a concurrent exchange)' if bad else 'only passed to std::atomic_load/atomic_exchange'))
         if nm in ('acquire', 'release'):
             G = K.build_f(R, prog, f)
-            stamp = lambda ev: ev.kind == 'binop' and ev.e['op'] == '=' and (ev.path(ev.e['l']) or '').endswith('timestamp') and 'now' in (ev.show(ev.e['r']) or '')
+            nows = K.locals_defined_only_by(f, r'^photon::now$') | {'photon::now'}
+            stamp = lambda ev, nows=nows: ev.kind == 'binop' and ev.e['op'] == '=' and (ev.path(ev.e['l']) or '').endswith('timestamp') and (ev.path(ev.e['r']) or ev.show(ev.e['r'])) in nows
             res = an.run(G, [an.SeenTracker([('stamped', stamp)])])
             K.check_at(R, P + '.K7', G, res, lambda ev: ev.kind == 'exit', require=lambda st, ev: 'S:stamped' in st,
                        key_fn=lambda ev, nm=nm: '%s.K7:ObjectCacheV2::Box::%s:stamps-the-time-of-use' % (P, nm),
